@@ -287,7 +287,7 @@ def model_check(ctx, thorough):
 def generate(ctx, thorough):
     """-> list of behaviours; all TLC runs in parallel"""
     from concurrent.futures import ThreadPoolExecutor
-    total = 24000 if thorough else 420
+    total = 12000 if thorough else 420
     jobs = []
     for name, K, mt, me, mf, envk, share in SIM_PLANS:
         n = int(total * share)
@@ -295,7 +295,7 @@ def generate(ctx, thorough):
                                    cfg_text=cfg(K=K, maxtime=mt, maxenv=me, maxforce=mf, envk=envk,
                                                 old=(0, 10, 21, 23, 25), gen=True, tail="CHECK_DEADLOCK FALSE\n"))))
     for name, kw in SWEEPS:
-        jobs.append((name, None if thorough else 90,
+        jobs.append((name, (None if name == "sweep-edit" else 6000) if thorough else 90,
                      dict(name=name, workers=2, timeout=1500,
                           cfg_text=cfg(gen=True, tail="CHECK_DEADLOCK FALSE\n", **kw))))
     for dev, kw in sorted(WITNESS.items()):
@@ -396,15 +396,28 @@ def run(ctx, replay):
                 break
 
     verdicts, by_t = {}, {}
+    from concurrent.futures import ThreadPoolExecutor
+    groups = []
     for K in sorted(set(b["cfg"]["K"] for b in behs)):
-        ids = set(b["id"] for b in behs if b["cfg"]["K"] == K)
+        ids = sorted(b["id"] for b in behs if b["cfg"]["K"] == K)
         if K == 2:
-            ids |= set(selftest)
-        evK = [e for e in events if e["t"] in ids]
-        v, bt = ctx.validate("FileTableTrace", None, evK, name="trace-K%d" % K,
-                             cfg_text=trace_cfg(K, open_devs), batch=2500)
-        verdicts.update(v)
-        by_t.update(bt)
+            ids += sorted(selftest)
+        per = 2500
+        for gi in range(0, len(ids), per):
+            groups.append((K, gi // per, set(ids[gi:gi + per])))
+    ev_by_t = {}
+    for e in events:
+        ev_by_t.setdefault(e["t"], []).append(e)
+
+    def val_group(g):
+        K, gi, ids = g
+        evK = [e for t in sorted(ids) for e in ev_by_t.get(t, [])]
+        return ctx.validate("FileTableTrace", None, evK, name="trace-K%d-g%d" % (K, gi),
+                            cfg_text=trace_cfg(K, open_devs), batch=2500)
+    with ThreadPoolExecutor(max_workers=6) as ex:
+        for v, bt in ex.map(val_group, groups):
+            verdicts.update(v)
+            by_t.update(bt)
 
     ok = drift = 0
     preds = {}
